@@ -10,8 +10,8 @@ from common import Driver, DriverFailure, hx
 
 LEVEL = "proof"
 MANIFEST = dict(
-    text="Lean 4 theorems for every item satisfying the decidable Item.WF (all shipped items except the 3 of finding D9, by C18's whole-table evaluation), every 1024-byte block and every domain value: write-then-read returns the value (read_after_write + per-kind corollaries), only bits of the item's own field change (write_touches_only_own_field), items with a disjoint field keep their value (other_items_unchanged), read-only items refuse, string forms, and the blocking/awaitable paths emit identical writes. The shift/mask/merge arithmetic is translated from accessor.py on every run; type dispatch / labels / time format are a hand model tied by a differential correspondence on the real accessors (thorough: all 20 505 items). Session 4: every stored word of a window (0..1099 plus a seeded sample of the rest) of the writable temperature items of two shipped pairs is presented in both units and written back through the blocking and the awaitable path: the device write must carry that word."
-         ' Since session 3: adversarial prior contents for bit fields (the whole field equals the integer about to be merged in, and its complement) and a no-write oracle.',
+    text="Lean 4 theorems for every item satisfying the decidable Item.WF (all shipped items except the 3 of finding D9, by C18's whole-table evaluation), every 1024-byte block and every domain value: write-then-read returns the value (read_after_write + per-kind corollaries), only bits of the item's own field change (write_touches_only_own_field), items with a disjoint field keep their value (other_items_unchanged), read-only items refuse, string forms, and the blocking/awaitable paths emit identical writes. The shift/mask/merge arithmetic is translated from accessor.py on every run; type dispatch / labels / time format are a hand model tied by a differential correspondence on the real accessors (thorough: all 20 505 items)."
+         ' Since session 3: adversarial prior contents for bit fields (the whole field equals the integer about to be merged in, and its complement) and a no-write oracle. Session 4: every stored word of a window (0..1099 plus a seeded sample of the rest) of the writable temperature items of two shipped pairs is presented in both units and written back through the blocking and the awaitable path: the device write must carry that word. Items whose labels are unusual as text (blank, padded, case twins, numeric-looking) are always chosen; an error on an in-domain write to a writable item is a violation.',
     note="Trusted: Lean kernel; translator for the three arithmetic expressions; the correspondence harness; 'applied to the block' = the spa stores struct.pack of the value at pos (as the bundled simulator does). Temperature items' unit conversion is C14.",
     technique='Lean 4 bit-level proofs (Nat.testBit) over source-translated merge arithmetic + differential correspondence of the hand model on all shipped items',
     design='5/C02',
@@ -130,7 +130,8 @@ def values_for(it, rng, quick):
     if k == "enum":
         labs = list(dict.fromkeys(it["labels"] or []))
         if quick and len(labs) > 6:
-            labs = labs[:3] + rng.sample(labs[3:], 3)
+            odd = [l for l in labs if isinstance(l, str) and l != "" and (l != l.strip() or l.strip() == "")]
+            labs = list(dict.fromkeys(labs[:3] + rng.sample(labs[3:], 3) + odd))
         return labs + ["zz-not-a-label"]
     if k == "bool":
         return [True, False, "true", "True", "TRUE", "false", "x"]
@@ -252,6 +253,16 @@ def run(ctx):
         if s not in seen:
             seen.add(s)
             chosen.append((m, it))
+    # items whose LABELS are unusual as text (blank, surrounded by whitespace, differing only in case, numeric-looking) are always in:
+    # anything that normalises a value before looking it up shows on them and nowhere else
+    def odd_labels(it):
+        labs = [l for l in (it.get("labels") or []) if isinstance(l, str)]
+        real = [l for l in labs if l != ""]
+        return any(l != l.strip() or l.strip() == "" for l in real) or len({l.lower() for l in real}) < len(set(real)) or \
+            any(l.strip().lstrip("-").isdigit() for l in real)
+    special = [x for x in allitems if x[1]["kind"] == "enum" and odd_labels(x[1]) and x not in chosen]
+    chosen += special
+    ctx.cov["items_with_unusual_labels"] = len(special)
     rest = [x for x in allitems if x not in chosen] if not ctx.quick else rng.sample(allitems, 1200)
     chosen += rest
     ctx.cov["distinct_shapes"] = len(seen)
@@ -314,6 +325,10 @@ def run(ctx):
                     if ans.startswith("err:E_NOTWRITABLE") != (it["rw"] is None):
                         ctx.violation(f"rw:{f}:{tag}", {"module": f, "tag": tag, "value": repr(v)},
                                       "refuses exactly when not writable", ans)
+                    if ans.startswith("err:") and not ans.startswith("err:E_NOTWRITABLE") and it["rw"] is not None and in_domain_of(it, v) \
+                            and (f, tag) not in illformed:
+                        ctx.violation(f"write-refused:{it['kind']}:{ans.split(' ')[0]}", {"module": f, "tag": tag, "block": bid, "value": repr(v)},
+                                      "a value of the item's domain written to a writable item produces a device write", ans)
                     if "nowrite" in ans.split(" ")[:2] and it["rw"] is not None and in_domain_of(it, v) and (f, tag) not in illformed:
                         # no device write at all: the item must at least already read the requested value
                         impl.s.set_status_block(blk)
